@@ -1,5 +1,6 @@
 import OdakProofs.Lemmas.Mat3
 import OdakProofs.Lemmas.GenGeometry
+import OdakProofs.Lemmas.GenSamplers
 import OdakProofs.Props.C13
 import OdakModel.Rays
 import Mathlib.Analysis.SpecialFunctions.Trigonometric.Inverse
@@ -231,5 +232,114 @@ theorem C14_gen_two_points_propagate_n (p0 p1 : Vec3 ℝ) (hne : p0 ≠ p1) :
 theorem C14_gen_propagate_ray_t (r : Ray ℝ) (t : ℝ) :
     (propagateRayT r t).o = (propagateARayN r t).o ∧ (propagateRayT r t).d = ⟨0, 0, 0⟩ := by
   rw [propagateRayT_eq, propagateARayN_eq]; exact ⟨rfl, rfl⟩
+
+end Odak
+
+/-! ## The sample-point and ray generators REGENERATED from the Python source (`Generated/Samplers.lean`, tied to the model by
+  `Lemmas/GenSamplers.lean`): one row `idx` of the returned array.  `…N` = NumPy, `…T` = torch. -/
+namespace Odak
+open Odak.Gen
+
+/-- exact counts: the number of rows every generator returns, as the reshape / slicing of the source gives it -/
+theorem C14_gen_counts (no0 no1 no2 m n num : Nat) :
+    gridSampleNCount no0 no1 = no0 * no1 ∧ gridSampleTCount no0 no1 = no0 * no1 ∧
+    boxVolumeSampleNCount no0 no1 no2 = no0 * no1 * no2 ∧ circularSampleNCount no0 no1 = no0 * no1 ∧
+    sphereSampleNCount no0 no1 = no0 * no1 ∧ sphereSampleUniformNCount no0 no1 = no0 * no1 ∧
+    allPairsRayTCount m n = m * n ∧ luminousPointRayTCount num = num ∧ luminousGridRayTCount no0 no1 num = num * (no0 * no1) :=
+  ⟨rfl, rfl, rfl, rfl, rfl, rfl, rfl, rfl, rfl⟩
+
+/-- generated `grid_sample` (both APIs): every returned row is the placement (tilt about the origin, then shift to the centre) of
+    a point of the described `size0 x size1` rectangle in the plane z = 0; NumPy and torch use the same lattice point; rows are
+    in row-major order -/
+theorem C14_gen_grid_on_rectangle (no0 no1 : Nat) (s0 s1 : ℝ) (center angles : Vec3 ℝ) (z : Bool)
+    (h0 : 2 ≤ no0) (h1 : 2 ≤ no1) (hs0 : 0 ≤ s0) (hs1 : 0 ≤ s1) (idx : Nat) (hidx : idx < gridSampleNCount no0 no1) :
+    ∃ p : Vec3 ℝ, |p.x| ≤ s0 / 2 ∧ |p.y| ≤ s1 / 2 ∧ p.z = 0 ∧
+      gridSampleN no0 no1 s0 s1 center angles z idx = placeSample angles center p z ∧
+      gridSampleT no0 no1 s0 s1 center angles idx = rotatePoint .torch [.z, .y, .x] angles ⟨0, 0, 0⟩ center p := by
+  obtain ⟨hi, hj⟩ := unflat_lt idx no0 no1 hidx
+  obtain ⟨hx, hy, hz⟩ := C14_grid_on_rectangle no0 no1 s0 s1 h0 h1 hs0 hs1 _ _ hi hj
+  exact ⟨_, hx, hy, hz, gridSampleN_eq .., gridSampleT_eq ..⟩
+
+/-- … and row `i·no1 + j` is lattice point `(i, j)` -/
+theorem C14_gen_grid_row_major (no0 no1 : Nat) (s0 s1 : ℝ) (center angles : Vec3 ℝ) (z : Bool) (i j : Nat) (hi : i < no0)
+    (hj : j < no1) :
+    i * no1 + j < gridSampleNCount no0 no1 ∧
+    gridSampleN no0 no1 s0 s1 center angles z (i * no1 + j) = placeSample angles center (gridPoint no0 no1 s0 s1 i j) z := by
+  obtain ⟨e1, e2⟩ := flat_div_mod i j no1 hj
+  refine ⟨(C14_all_pairs_row_major no0 no1 i j hi hj).2, ?_⟩
+  rw [gridSampleN_eq, e1, e2]
+
+/-- generated `box_volume_sample`: every returned row is the placement of a point strictly inside the described box -/
+theorem C14_gen_box_in_box (no0 no1 no2 : Nat) (s0 s1 s2 : ℝ) (center angles : Vec3 ℝ) (z : Bool)
+    (hs0 : 0 < s0) (hs1 : 0 < s1) (hs2 : 0 < s2) (idx : Nat) (hidx : idx < boxVolumeSampleNCount no0 no1 no2) :
+    ∃ p : Vec3 ℝ, |p.x| < s0 / 2 ∧ |p.y| < s1 / 2 ∧ |p.z| < s2 / 2 ∧
+      boxVolumeSampleN no0 no1 no2 s0 s1 s2 center angles z idx = placeSample angles center p z := by
+  have hidx' : idx < no0 * (no1 * no2) := by rw [← Nat.mul_assoc]; exact hidx
+  obtain ⟨hi, hjk⟩ := unflat_lt idx no0 (no1 * no2) hidx'
+  have hk0 : 0 < no2 := by
+    rcases Nat.eq_zero_or_pos no2 with h | h
+    · subst h; simp at hjk
+    · exact h
+  have hj0 : 0 < no1 := by
+    rcases Nat.eq_zero_or_pos no1 with h | h
+    · subst h; simp at hjk
+    · exact h
+  have hj : idx / no2 % no1 < no1 := Nat.mod_lt _ hj0
+  have hk : idx % no2 < no2 := Nat.mod_lt _ hk0
+  obtain ⟨hx, hy, hz⟩ := C14_box_in_box no0 no1 no2 s0 s1 s2 hs0 hs1 hs2 _ _ _ hi hj hk
+  exact ⟨_, hx, hy, hz, boxVolumeSampleN_eq ..⟩
+
+/-- generated `circular_sample`: every returned row is the placement of a point of the disc of the requested radius (z = 0) -/
+theorem C14_gen_circular_in_disc (no0 no1 : Nat) (radius : ℝ) (center angles : Vec3 ℝ) (z : Bool) (hr : 0 ≤ radius)
+    (idx : Nat) (hidx : idx < circularSampleNCount no0 no1) :
+    ∃ p : Vec3 ℝ, Vec3.normSq p ≤ radius ^ 2 ∧ p.z = 0 ∧
+      circularSampleN no0 no1 radius center angles z idx = placeSample angles center p z := by
+  obtain ⟨_, hj⟩ := unflat_lt idx no0 no1 hidx
+  obtain ⟨h1, h2⟩ := C14_circular_in_disc no0 no1 radius hr (idx / no1 + 1) (idx % no1 + 1) (by omega) (by omega)
+  exact ⟨_, h1, h2, circularSampleN_eq ..⟩
+
+/-- generated `sphere_sample` and `sphere_sample_uniform`: every row lies on the sphere of the requested radius about the
+    requested centre (all three centre coordinates) -/
+theorem C14_gen_sphere_on_sphere (no0 no1 : Nat) (radius : ℝ) (center : Vec3 ℝ) (k0 k1 : ℝ) (idx : Nat) :
+    Vec3.normSq (sphereSampleN no0 no1 radius center k0 k1 idx - center) = radius ^ 2 ∧
+    Vec3.normSq (sphereSampleUniformN no0 no1 radius center k0 k1 idx - center) = radius ^ 2 := by
+  rw [sphereSampleN_eq, sphereSampleUniformN_eq]
+  exact ⟨C14_sphere_on_sphere .., C14_sphere_on_sphere ..⟩
+
+/-- generated `create_ray_from_all_pairs`: `m·n` rays; ray `i·n + j` starts at start point `i`, has unit direction cosines and
+    reaches end point `j` (row-major over (start, end)) -/
+theorem C14_gen_all_pairs_row_major (m n : Nat) (x0 x1 : Nat → Vec3 ℝ) (i j : Nat) (hi : i < m) (hj : j < n)
+    (hne : x0 i ≠ x1 j) :
+    i * n + j < allPairsRayTCount m n ∧
+    (allPairsRayT m x0 n x1 (i * n + j)).o = x0 i ∧
+    Vec3.normSq (allPairsRayT m x0 n x1 (i * n + j)).d = 1 ∧
+    (allPairsRayT m x0 n x1 (i * n + j)).o +
+      Vec3.smul (Vec3.norm (x1 j - x0 i)) (allPairsRayT m x0 n x1 (i * n + j)).d = x1 j := by
+  obtain ⟨e, hlt⟩ := C14_all_pairs_row_major m n i j hi hj
+  rw [allPairsRayT_eq, e]
+  exact ⟨hlt, rfl, (C14_two_points _ _ hne).1, (C14_two_points _ _ hne).2⟩
+
+/-- generated luminous-angle generators (both): for uniform variates in `[0, 1]` and a limit in `[0°, 180°]` every emitted
+    direction has unit length and deviates from the tilted axis `R ẑ` by no more than the limit; point rays start at `origin`,
+    grid rays start at the rows of the generated torch `grid_sample` (centre and tilt as given) -/
+theorem C14_gen_cone_within_limit (origin center tilt : Vec3 ℝ) (s0 s1 : ℝ) (no0 no1 num : Nat) (limitDeg : ℝ)
+    (U V : Nat → ℝ) (idx : Nat) (hU0 : 0 ≤ U idx) (hU1 : U idx ≤ 1) (hl0 : 0 ≤ limitDeg) (hl1 : limitDeg ≤ 180) :
+    (luminousPointRayT origin num tilt limitDeg U V idx).o = origin ∧
+    (luminousGridRayT center s0 s1 no0 no1 tilt num limitDeg U V idx).o =
+      gridSampleT no0 no1 s0 s1 center tilt (idx % (no0 * no1)) ∧
+    ∀ d ∈ [(luminousPointRayT origin num tilt limitDeg U V idx).d,
+           (luminousGridRayT center s0 s1 no0 no1 tilt num limitDeg U V idx).d],
+      Vec3.normSq d = 1 ∧
+      Real.cos (limitDeg * Real.pi / 180) ≤ Vec3.dot d ((coneTilt tilt).mulVec ⟨0, 0, 1⟩) ∧
+      Vec3.dot d ((coneTilt tilt).mulVec ⟨0, 0, 1⟩) ≤ 1 := by
+  have hc := C14_cone_within_limit tilt limitDeg (U idx) (V idx) hU0 hU1 hl0 hl1
+  rw [luminousPointRayT_eq, luminousGridRayT_eq, gridSampleT_eq]
+  refine ⟨rfl, ?_, ?_⟩
+  · simp only [rotatePoint]
+    apply Vec3.ext' <;> simp only [Vec3.add_def, Vec3.add] <;> ring
+  · intro d hd
+    rcases List.mem_cons.mp hd with h | h
+    · rw [h]; exact hc _ (by simp)
+    · rw [List.mem_singleton.mp h]; exact hc _ (by simp)
 
 end Odak
